@@ -241,6 +241,8 @@ def taproot_jobs(chk):
                         sig = b""
                     elif mut == "len63":
                         sig = sig[:63]
+                    if ht == 0 and rep % 3 == 1 and len(sig) == 64:
+                        sig += b"\x00"; mut = "explicit00"       # the default hash type spelled out: 65 bytes ending in 00 are never valid (BIP341)
                     weight = rng.choice([0, 49, 50, 51, 100, 1000])
                     flags = sorted(f for f in SIGFLAGS if rng.random() < 0.3)
                     n += 1
@@ -261,6 +263,8 @@ def taproot_jobs(chk):
                         p = rng.randrange(64); sig = sig[:p] + bytes([sig[p] ^ 2]) + sig[p + 1:]
                     elif mut == "keybit":
                         key = q[:5] + bytes([q[5] ^ 1]) + q[6:]
+                    if ht == 0 and rep % 3 == 1 and len(sig) == 64:
+                        sig += b"\x00"; mut = "explicit00"
                     script = push(key) + O("CHECKSIG")
                     n += 1
                     jobs.append(SessionJob("t%d:keypath:ht%02x:%s" % (n, ht, mut), script, [sig], [], "TAPROOT", cmds=["steps"],
